@@ -472,6 +472,7 @@ func runBlackBox(r *hx.Result, cfg hx.Config, rng *rand.Rand, drv *model.Driver)
 	b.pipelines()
 	b.pubsubPayloads()
 	b.keyspaceModes()
+	b.mvtTiles()
 	for _, st := range states {
 		b.st = st
 		b.reset()
